@@ -51,6 +51,11 @@ def check(model, tier):
     _bounds.r06_7_bound_formulas(ctx, rule="R02.10")
     sqlplace.r_inner_calculation_name(ctx, "R02.11")
     sqlemit.r_select_list_order(ctx, "R02.12")
+    sqlemit.r_identifier_agreement(ctx, "R02.14")
+    sqlemit.r_anonymous_binds(ctx, "R02.15")
+    from ..rules import rangesql as _rangesql
+
+    _rangesql.r12_7_range_membership(ctx, rule="R02.13")
     from ..rules.foundation import run_foundation
 
     run_foundation(ctx, "02")
